@@ -145,6 +145,14 @@ func otherValue(r *rng.Rand, n *spec.Node) any {
 		}
 		return BaseTime.Add(time.Duration(r.Range(-3000, 3000)) * time.Hour)
 	default:
+		if (n.Kind == spec.Float32 || n.Kind == spec.Float64) && r.Intn(12) == 0 {
+			// the values on which Go's comparison operators and a total order disagree
+			f := []float64{math.NaN(), math.Inf(1), math.Inf(-1), math.Copysign(0, -1), math.NaN()}[r.Intn(5)]
+			if n.Kind == spec.Float32 {
+				return float32(f)
+			}
+			return f
+		}
 		if r.Intn(30) == 0 {
 			// extremes of the type
 			switch n.Kind {
